@@ -77,7 +77,9 @@ class Layout(object):
         # inside files
         for rel in ('in.tex', 'sub/deep.tex', 'noext', 'sub/subsub/x.latex', 'both', 'both.tex', 'l.latex',
                     # base names with inner dots, requested without their extension
-                    'v1.2.tex', 'sub/fig.1.latex', 'a.b.c'):
+                    'v1.2.tex', 'sub/fig.1.latex', 'a.b.c',
+                    # a long name with hyphens and a blank (places where text filling breaks lines)
+                    'sub/long-file-name with-hyphens.tex'):
             self.write(os.path.join(b, rel), 'INSIDE')
         # outside files
         for rel in (b + '2/sib.tex', b + '2/in.tex', b + '-x/in.tex', 'other/out.tex', 'other/deep/d.tex', 'secret',
@@ -122,7 +124,7 @@ class Layout(object):
                            'lnk', 'lnk.tex', 'lnkdir', 'out', 'out.tex', 'lnkin', 'ext', 'ext2', 'rel', 'up', 'sib', 'chain', 'chain2',
                            'up2', 'self', 'v1.2', 'fig.1', 'a.b.c', 'dotlnk',
                            'sib.tex', b, b + '2', b + '-x', b + '.tex', 'other', 'secret', 'backin', 'tosub', 'd', '',
-                           self.cname, 'case', 'caselnk', 'casedir']
+                           self.cname, 'case', 'caselnk', 'casedir', 'long-file-name with-hyphens']
         self.nested_names = ['nest', 'nest.tex', 'lnkdir/back', 'lnkdir/back.tex', os.path.join(root, 'other', 'back.tex'),
                              'sub/nest2', 'sub/up/back2', 'sub/up/back2.tex', os.path.join(root, b + '2', 'back2'),
                              '../other/back', 'sub/../nest']
@@ -215,11 +217,15 @@ def evaluate(lay, base, name, via, rec, l2t=None):
     if l2t is None:
         # converter options that do not concern files must not change which file is read
         optsets = [{}, {'keep_braced_groups': True}, {'math_mode': 'verbatim', 'keep_comments': True},
-                   {'strict_latex_spaces': True, 'keep_braced_groups': True, 'keep_braced_groups_minlen': 0}]
+                   {'strict_latex_spaces': True, 'keep_braced_groups': True, 'keep_braced_groups_minlen': 0},
+                   {'fill_text': True}, {'fill_text': 12, 'keep_comments': True}]
         oi = (len(name) + len(via)) % len(optsets) if via != 'read' else 0
         rec.hist('converter_options', str(oi))
         l2t = LatexNodes2Text(**optsets[oi])
-        l2t.set_tex_input_directory(base, strict_input=True)
+        # strict mode is on for every true value of the flag
+        sv = STRICT_VALUES[(len(name) + len(base)) % len(STRICT_VALUES)]
+        rec.hist('strict_input_value', repr(sv))
+        l2t.set_tex_input_directory(base, strict_input=sv)
     del OPENED[:]
     HOOK['on'] = True
     try:
@@ -258,6 +264,9 @@ def evaluate(lay, base, name, via, rec, l2t=None):
                 [p.replace(lay.root, 'R') for p in inside_files], text[:60])
         rec.monitor('inside_reads_confirmed')
     return None
+
+
+STRICT_VALUES = [True, True, 1, 'yes', 2, [0]]
 
 
 def configure(l2t, base, strict, how):
@@ -339,7 +348,7 @@ def run_reuse(desc, rec, rng):
                     rec.monitor('long_sessions')
                 for _ in range(rng.randint(15, 25) if long_session else rng.randint(2, 5)):
                     base = rng.choice(bases)
-                    strict = rng.random() < 0.7
+                    strict = rng.choice(STRICT_VALUES) if rng.random() < 0.7 else rng.choice([False, False, 0, ''])
                     # re-configured through the setter or, once the setter has been used, by assigning the public
                     # attributes it sets ("simply sets properties which are used by ... read_input_file()")
                     how = 'setter' if not steps else rng.choice(['setter', 'attrs', 'attr-strict', 'attr-dir'])
